@@ -19,7 +19,9 @@ RULE = ("(1) EXHAUSTIVE: every string over the 14 syntax symbols `{ } ( ) \\ : <
         "texts of 24-100 bytes made of 0-7 ASCII letters followed by 12 (24) copies of a 2-, 3- or 4-byte character "
         "as unknown formatter name, zone, date format, MDC key, unterminated formatter: every byte offset from 8 "
         "to 70 falls inside some character; (7) non-ASCII numeric characters (Arabic-Indic, superscript, fullwidth, Roman "
-        "numeral, fraction, CJK, Devanagari, mathematical digit) in every width position. Every call "
+        "numeral, fraction, CJK, Devanagari, mathematical digit) in every width position; (8) dates rendered while the "
+        "process's time zone changes, every third time into a zone whose daylight-saving time ends within the hour (the "
+        "record's local time is in the repeated hour). Every call "
         "runs under catch_unwind on its own thread; patterns containing a digit run of value > 64 are "
         "constructed but not encoded. non-trivial = the pattern contains at least one syntax character; "
         "distinct = distinct case line")
@@ -151,6 +153,10 @@ def cases(rng, tier):
         for tmpl in ("{m:%s}", "{m:>%s}", "{m:4.%s}", "{m:.%s}", "{m:*<%s}", "{m:1%s}", "{(a{m}):%s.2}", "{l:%s%s}", "{m:%s5}"):
             out.append(mk_str(tmpl.replace("%s", ch), k, envs[k % len(envs)]))
             k += 1
+    # (8) dates rendered while the process's time zone changes, incl. a zone in which "now" falls into the
+    # repeated hour at the end of daylight-saving time (C09's family (f)): never a panic
+    for c in g9.tz_switch_cases(rng, tier, envs):
+        out.append([c[0], c[1], c[2], c[3], c[4], [], c[6]])
     # (2) mutations, (4) prefix + junk
     n_mut = 3000 if tier == "quick" else 40000
     n_pre = 1200 if tier == "quick" else 12000
